@@ -18,6 +18,20 @@ Theorem C06_cancelled_stays :
 Proof. exact cancelled_stays. Qed.
 Print Assumptions C06_cancelled_stays.
 
+(* ... and a call that has started - its future is running or finished - is never turned into a
+   cancelled one: cancel(), shutdown(cancel_futures=True) and every other step of every thread leave it
+   running or finished ("never affects a call that had already started or finished") *)
+From EL Require Proofs.ExecStarted.
+Theorem C06_started_call_is_never_cancelled :
+  forall c s t s' l i,
+    step c s t = Some (s', l) -> ExecStarted.started (getf s i) ->
+    ExecStarted.started (getf s' i) /\ getf s' i <> FCancelled /\ getf s' i <> FCancelledN.
+Proof.
+  intros c s t s' l i H1 H2. split; [exact (ExecStarted.started_never_cancelled c s t s' l i H1 H2)|].
+  exact (ExecStarted.started_not_cancelled c s t s' l i H1 H2).
+Qed.
+Print Assumptions C06_started_call_is_never_cancelled.
+
 (* cancel() returns True only if the future is cancelled afterwards ... *)
 Theorem C06_cancel_true :
   forall f, snd (fcancel f) = true -> is_cancelled (fst (fcancel f)).
